@@ -81,6 +81,28 @@ func genC13(g *Gen) {
 			e := Ev{"op": "UnmarshalJSON", "s": ints([]byte(g.jsonNumberText()))}
 			e.setDec("prev", randAny(g.r))
 			g.emit(e)
+			if g.r.Intn(3) == 0 { // an inexact literal under every DefaultRoundingMode, both signs
+				t := g.tieLiteral()
+				if len(t) > 0 && t[0] == '+' {
+					t = t[1:]
+				}
+				if len(t) > 0 && (t[0] == '.' || (t[0] == '-' && len(t) > 1 && t[1] == '.')) {
+					t = strings.Replace(t, ".", "0.", 1)
+				}
+				t = strings.Replace(t, ".e", ".0e", 1)
+				for m := 0; m < 6; m++ {
+					g.setMode(m)
+					ej := Ev{"op": "UnmarshalJSON", "s": ints([]byte(t))}
+					ej.setDec("prev", randAny(g.r))
+					g.emit(ej)
+					if g.r.Intn(3) == 0 {
+						ed := Ev{"op": "UnmarshalDoc", "s": ints([]byte(t))}
+						ed.setDec("prev", randAny(g.r))
+						g.emit(ed)
+					}
+				}
+				g.setMode(0)
+			}
 		case 6:
 			s := nearMiss[g.r.Intn(len(nearMiss))]
 			if g.r.Intn(3) == 0 {
@@ -128,7 +150,7 @@ func genC14(g *Gen) {
 			g.emit(e)
 		default:
 			var c *big.Int
-			switch g.r.Intn(6) {
+			switch g.r.Intn(8) {
 			case 0:
 				c = randCoef(g.r)
 			case 1: // short digits then many decimal zeros
@@ -140,6 +162,9 @@ func genC14(g *Gen) {
 				b := make([]byte, n)
 				g.r.Read(b)
 				c = new(big.Int).SetBytes(b)
+			case 6: // digits, a run of zeros, then a short non-zero tail: exactness must be refused at every reduction step
+				c = new(big.Int).Mul(randDigits(g.r, 1+g.r.Intn(60)), pow10([]int{4, 5, 7, 8, 9, 12, 16, 19, 20, 23, 27, 38}[g.r.Intn(12)]))
+				c.Add(c, big.NewInt(int64(1+g.r.Intn(9999))))
 			case 4:
 				c = new(big.Int).Add(cMax, big.NewInt(int64(g.r.Intn(3)-1)))
 			default:
